@@ -505,6 +505,11 @@ def title_sets(ctx, sut):
         for k, title in enumerate(titles):
             obj = {"type": "object", "title": title,
                    "properties": {f"q{k}": {"type": rng.choice(["string", "integer"]), "maxLength": k}}}
+            if (k == 0 or rng.random() < 0.15) and idx % 3 == 1:
+                # the same NAME, but given by the labeller (the object has no title of its own): one naming
+                # scheme, whatever the source of the name
+                obj["_x_autotitle"] = obj.pop("title")
+                ctx.count("titles.name_from_label_among_titled")
             # equally titled classes may sit in ANY schema position of the document
             where = rng.choice(["property", "property", "tuple_item", "items", "additionalProperties", "anyOf",
                                 "patternProperties", "definitions", "dependencies", "contains", "not",
